@@ -218,7 +218,7 @@ PROPS = {
                       "what the pool owes by paid + fee; racing withdrawals interleaved with any other requests remove "
                       "from the ledger exactly what each settled. Tied to the code by in-kernel evaluation on "
                       "accrual/withdrawal histories of the real PaymentService (settle handler recording amounts, "
-                      "failing on scripted attempts), both drivers, and by racing withdrawals of one wallet. Racing withdrawals: the keyed-lock model (Locks.v) proves mutual exclusion for a lock whose map entry is never removed, for any number of racing requests and any schedule, refutes the entry-removing variant with a chain of three, and the shape of Withdraw's lock is a fact regenerated from the source; staged chains of 3-5 overlapping withdrawals are forced on the real service through a settlement gate.",
+                      "failing on scripted attempts), both drivers, and by racing withdrawals of one wallet. Racing withdrawals: the keyed-lock model (Locks.v) proves mutual exclusion for a lock whose map entry is never removed, for any number of racing requests and any schedule, refutes the entry-removing variant with a chain of three, and the shape of Withdraw's lock is a fact regenerated from the source; staged chains of 3-5 overlapping withdrawals are forced on the real service through a settlement gate. The production wiring is exercised as well: payment.ContractPayment as balance store and its OpSettle as settlement, over the real VipnodePool contract deployed on go-ethereum's simulated chain (deposits, timelocked deposits, fee styles, minimum, immediate repeats with the first settlement still pending), with paid amount, remaining deposit and remaining credit read from the chain and the ledger.",
         "level_note": "Trusted: Coq kernel; the settle handler and deposit proxy are harness code standing for the "
                       "contract (settlement sets the on-chain balance to the new balance 0); withdrawals are serialized "
                       "by the service mutex (Go sync.Mutex).",
